@@ -119,27 +119,17 @@ pub struct Pic {
     pub toks: Vec<Tok>,
     pub f: Formatter,
 }
-pub fn pic(p: &str) -> Option<Pic> {
+pub fn pic(st: &mut Stats, p: &str, reject_key: Option<&str>) -> Option<Pic> {
     let toks = tokenize(p.as_bytes())?;
-    let f = Formatter::try_new(p).ok()?;
+    let f = compile_picture(st, p, reject_key)?;
     Some(Pic { text: p.to_string(), toks, f })
 }
 fn pics(st: &mut Stats, list: &[&str]) -> Vec<Pic> {
+    st.stratum("pictures (compiled inside the panic boundary)", true);
     let mut v = vec![];
     for p in list {
-        match pic(p) {
-            Some(x) => v.push(x),
-            None => {
-                // a documented token spelling the library (or the reference) refuses: report once
-                st.stratum("pictures", true);
-                struct P<'a>(&'a str);
-                impl<'a> Case for P<'a> {
-                    fn to_json(&self) -> Value {
-                        json!({"kind":"picture","picture":self.0})
-                    }
-                }
-                st.eval(&P(p), |st, p| st.fail("C04/documented-token-picture-rejected", format!("picture {:?} could not be compiled", p.0)));
-            }
+        if let Some(x) = pic(st, p, Some("C04/documented-token-picture-rejected")) {
+            v.push(x);
         }
     }
     v
@@ -251,7 +241,7 @@ fn rand_case(rng: &mut Rng, s: &str) -> String {
 }
 /// random composite picture of 1..=36 tokens; returns None when the concatenation re-lexes to something
 /// longer than 36 tokens (not a picture then)
-pub fn rand_picture(rng: &mut Rng, ty: Ty, allow_inapplicable: bool) -> Option<Pic> {
+pub fn rand_picture(st: &mut Stats, rng: &mut Rng, ty: Ty, allow_inapplicable: bool) -> Option<Pic> {
     let pool = if allow_inapplicable && rng.chance(1, 6) { GEN_TOKENS.to_vec() } else { applicable_tokens(ty) };
     let k = match rng.below(8) {
         0 => 30 + rng.below(7) as usize,
@@ -266,7 +256,7 @@ pub fn rand_picture(rng: &mut Rng, ty: Ty, allow_inapplicable: bool) -> Option<P
             p.push_str(&" ".repeat(1 + rng.below(300) as usize));
         }
     }
-    pic(&p)
+    pic(st, &p, Some("C04/documented-token-picture-rejected"))
 }
 
 pub fn run(ctx: &Ctx, st: &mut Stats) {
@@ -312,6 +302,21 @@ pub fn run(ctx: &Ctx, st: &mut Stats) {
         for p in dp.iter() {
             st.eval(&F { v: V::Ts(y, m, d, h, mi, s, (i % 1_000_000) as u32), pic: &p.text, toks: &p.toks, f: &p.f, via_display: false }, check);
             st.eval(&F { v: V::Ora(y, m, d, h, mi, s), pic: &p.text, toks: &p.toks, f: &p.f, via_display: false }, check);
+        }
+    });
+    // (a') pool dates x bit-structured times of day x date/time tokens on Timestamp (date part and time part are split from one count)
+    let bts = crate::pools::bit_times();
+    let dpool = crate::pools::date_pool();
+    let mixed = pics(st, &["YYYY-MM-DD DY D DDD HH24:MI:SS.FF6", "DAY WW W HH12 AM"]);
+    let (bts_ref, dpool_ref, mixed_ref) = (&bts, &dpool, &mixed);
+    let bstep = ctx.tier.pick(9973, 7, 1);
+    ctx.par(st, "(a') Timestamp: pool dates x bit-structured times x mixed pictures", true, 0, (dpool.len() * bts.len()) as i64 / bstep, |st, i, _| {
+        let i = i * bstep;
+        let (y, m, d) = cal().of(dpool_ref[(i as usize) / bts_ref.len()]);
+        let t = bts_ref[(i as usize) % bts_ref.len()];
+        let (h, mi, s, us) = tod_fields(t);
+        for p in mixed_ref.iter() {
+            st.eval(&F { v: V::Ts(y, m, d, h, mi, s, us), pic: &p.text, toks: &p.toks, f: &p.f, via_display: false }, check);
         }
     });
     // (b) all seconds x time token spellings on Time; sampled on the other types
@@ -423,7 +428,7 @@ pub fn run(ctx: &Ctx, st: &mut Stats) {
     let n = ctx.tier.pick(400, 600_000, 12_000_000);
     ctx.par(st, "(e) random composite pictures x random values, all six types", false, 0, n, |st, _, rng| {
         let ty = *rng.pick(&ALL_TY);
-        let p = match rand_picture(rng, ty, true) {
+        let p = match rand_picture(st, rng, ty, true) {
             Some(p) => p,
             None => {
                 st.skipped += 1;
@@ -441,15 +446,7 @@ pub fn run(ctx: &Ctx, st: &mut Stats) {
 pub fn replay(v: &Value, st: &mut Stats) -> bool {
     if jstr(v, "kind") == "picture" {
         let p = jstr(v, "picture");
-        if pic(&p).is_none() {
-            struct P(String);
-            impl Case for P {
-                fn to_json(&self) -> Value {
-                    json!({"kind":"picture","picture":self.0})
-                }
-            }
-            st.eval(&P(p), |st, p| st.fail("C04/documented-token-picture-rejected", format!("picture {:?} could not be compiled", p.0)));
-        }
+        let _ = pic(st, &p, Some("C04/documented-token-picture-rejected"));
         return true;
     }
     let val = match v.get("value").and_then(V::from_json) {
@@ -457,19 +454,9 @@ pub fn replay(v: &Value, st: &mut Stats) -> bool {
         None => return false,
     };
     let p = jstr(v, "picture");
-    let toks = match tokenize(p.as_bytes()) {
-        Some(t) => t,
-        None => return false,
-    };
-    struct P(String);
-    impl Case for P {
-        fn to_json(&self) -> Value {
-            json!({"kind":"picture","picture":self.0})
-        }
-    }
-    match Formatter::try_new(&p) {
-        Ok(f) => st.eval(&F { v: val, pic: &p, toks: &toks, f: &f, via_display: v.get("via_display").and_then(|x| x.as_bool()).unwrap_or(false) }, check),
-        Err(e) => st.eval(&P(p.clone()), |st, p| st.fail("C04/documented-token-picture-rejected", format!("picture {:?}: {:?}", p.0, e))),
+    match pic(st, &p, Some("C04/documented-token-picture-rejected")) {
+        Some(pc) => st.eval(&F { v: val, pic: &pc.text, toks: &pc.toks, f: &pc.f, via_display: v.get("via_display").and_then(|x| x.as_bool()).unwrap_or(false) }, check),
+        None => {}
     }
     true
 }
